@@ -327,7 +327,10 @@ fn eat_location_item(parser: &mut Parser, recovery: TokenSet) -> bool {
     }
 
     parser.in_node(AstKind::LocationSpecItemNode, |parser| {
-        parser.eat_tag();
+        // we know this is tag-like, but it may not be a valid tag (e.g. too
+        // long); in that case this reports an error and consumes the token,
+        // so that we always advance.
+        parser.expect_tag(recovery.add(Kind::Eq));
         parser.expect_recover(Kind::Eq, recovery.add(Kind::Comma));
         if !expect_axis_location(parser) {
             parser.err_recover(
